@@ -7,7 +7,7 @@ From PV Require Import Base.QAux Obs.Model.
 Import ListNotations.
 Open Scope Z_scope.
 
-Inductive exn := IndexError | ValueError | ZeroDivisionError | TypeError.
+Inductive exn := IndexError | ValueError | ZeroDivisionError | TypeError | NameError.
 Inductive res (A : Type) := Ok (a : A) | Raise (e : exn).
 Arguments Ok {A} a.
 Arguments Raise {A} e.
@@ -18,7 +18,7 @@ Notation "x <- e ;; k" := (bind e (fun x => k)) (at level 61, e at next level, r
 
 Definition exn_eqb (a b : exn) : bool :=
   match a, b with
-  | IndexError, IndexError | ValueError, ValueError | ZeroDivisionError, ZeroDivisionError | TypeError, TypeError => true
+  | IndexError, IndexError | ValueError, ValueError | ZeroDivisionError, ZeroDivisionError | TypeError, TypeError | NameError, NameError => true
   | _, _ => false
   end.
 (* try: body  except <e>: handler *)
@@ -206,3 +206,22 @@ Definition py_roll {A} (l : list A) (dt : Z) : list A :=
   | O => l
   | n => let k := Z.to_nat (dt mod Z.of_nat n) in skipn (n - k) l ++ firstn (n - k) l
   end.
+
+(* a local variable that is assigned only under a condition: reading it before any assignment raises UnboundLocalError (a NameError) *)
+Definition py_bound {A} (o : option A) : res A := match o with Some a => Ok a | None => Raise NameError end.
+(* l.index(x): position of the first occurrence, ValueError if absent *)
+Fixpoint py_list_index (l : list Z) (x : Z) : res Z :=
+  match l with
+  | [] => Raise ValueError
+  | y :: r => if x =? y then Ok 0 else i <- py_list_index r x ;; Ok (1 + i)
+  end.
+(* [list(o) for o in itertools.permutations(range(n), n)]: all orderings of 0 .. n-1, lexicographic in the positions *)
+Fixpoint perms_of (fuel : nat) (l : list Z) : list (list Z) :=
+  match fuel with
+  | O => [[]]
+  | S f => match l with
+           | [] => [[]]
+           | _ => flat_map (fun x => map (cons x) (perms_of f (remove Z.eq_dec x l))) l
+           end
+  end.
+Definition py_permutations (n : Z) : list (list Z) := perms_of (Z.to_nat n) (zrange 0 n 1).
